@@ -69,6 +69,11 @@ pub fn run(args: &Args, r: &mut Report) {
             case.shape.push(format!("failkey:{}", if k.starts_with('{') { "app" } else { &k }));
             case.fault.fail_keys.push(k);
         }
+        // the device may stay down for a while (longer than the dictated interval, too)
+        if rng.chance(1, 3) {
+            case.restart_gap_ns = *rng.pick(&[60i128, 3_600, 7_200, 86_400, 200_000]) * 1_000_000_000;
+            case.shape.push("downtime".into());
+        }
         let next = case.setup.clone();
         let run = run_case_restart(&case, &[next], &mut rng, 0);
         r.eval(case.shape_key(), case.nontrivial);
